@@ -14,7 +14,7 @@ FLOAT_PRIMS = ('sub', 'opp', 'mul', 'ltb', 'float', 'div', 'add', 'abs', 'PrimFl
                'normfr_mantissa', 'frshiftexp', 'ldshiftexp', 'of_uint63', 'classify', 'PrimFloat.compare',
                'PrimInt63.lsr', 'PrimInt63.land', 'PrimInt63.int', 'PrimInt63.eqb', 'PrimInt63.lsl', 'PrimInt63.lor',
                'PrimInt63.sub', 'PrimInt63.add', 'PrimInt63.ltb', 'PrimInt63.leb', 'PrimInt63.mul', 'PrimInt63.compare')
-RULE = ('7 object kinds (incl. a standard axis as second axis of a MAP and third axis of a CUBOID behind a FIX_AXIS, record layout with other data types at the other positions) x 11 data types x conversion kinds {none, FORM, LINEAR with/without coeffs, RAT_FUNC with/without coeffs '
+RULE = ('12 object kinds (MEASUREMENT, TYPEDEF_MEASUREMENT, AXIS_PTS, CHARACTERISTIC of type VALUE / ASCII / VAL_BLK / CURVE, TYPEDEF_CHARACTERISTIC of type VALUE / ASCII, AXIS_DESCR; incl. a standard axis as second axis of a MAP and third axis of a CUBOID behind a FIX_AXIS, record layout with other data types at the other positions) x 11 data types x conversion kinds {none, FORM, LINEAR with/without coeffs, RAT_FUNC with/without coeffs '
         '(linear special case and general), IDENTICAL, TAB_*} x coefficient grid (both signs, 1e-6..1e6, exact and inexact decimals) '
         'x declared limits inside / outside on each side / at the tolerance edge, plus random bit patterns incl. inf, nan, subnormals; '
         'non-trivial = LINEAR or RAT_FUNC with coefficients; distinct = distinct (case, outcome)')
@@ -43,7 +43,7 @@ def gen_cases(rng, tier):
     cases.append([0, 0, 3, [fbits(-1.0), fbits(0.0)], fbits(0.0), fbits(0.0)])
     n_grid = 1500 if tier == 'quick' else 200000
     for _ in range(n_grid):
-        k = rng.randrange(7)
+        k = rng.randrange(12)
         d = rng.randrange(11)
         r = rng.random()
         if r < 0.45:
@@ -83,7 +83,7 @@ def gen_cases(rng, tier):
         cs = [rb() for _ in range(2 if ck == 3 else 6)]
         if ck == 5 and rng.random() < 0.7:
             cs[0] = 0; cs[3] = 0; cs[4] = 0
-        cases.append([rng.randrange(7), rng.randrange(11), ck, cs, rb(), rb()])
+        cases.append([rng.randrange(12), rng.randrange(11), ck, cs, rb(), rb()])
     return cases
 
 
